@@ -184,6 +184,11 @@ def absolute_block(context, box, containing_block, fixed_boxes, bottom_space,
         box, context, cb_x, cb_y, cb_width, cb_height)
     if skip_stack:
         translate_box_height, translate_y = False, 0
+        # Box continued from the previous page, at the top of the page
+        if box.margin_top == 'auto':
+            box.margin_top = 0
+        if box.margin_bottom == 'auto':
+            box.margin_bottom = 0
     else:
         translate_box_height, translate_y = absolute_height(
             box, context, cb_x, cb_y, cb_width, cb_height)
